@@ -28,11 +28,14 @@ import (
 //
 // Anything else (library functions, other filters) is undecided.
 
-// c07Chain is the provenance of the variable the start loop ranges over.
+// c07Chain is the provenance of a listing expression inside one function.
 type c07Chain struct {
-	listCall *ast.CallExpr   // the call returning (listing, error)
-	filters  []*ast.CallExpr // single-argument calls the listing is passed through, before the loop
-	filterIn []*kit.Func     // function holding each filter call
+	in       *kit.Func
+	listCall *ast.CallExpr     // the call returning (listing, error)
+	literal  *ast.CompositeLit // or: an explicit element list
+	param    *types.Var        // or: a parameter of `in` (the listing is handed in by the callers)
+	filters  []*ast.CallExpr   // single-argument calls the listing is passed through
+	filterIn []*kit.Func
 	undec    string
 }
 
@@ -44,17 +47,33 @@ func c07IsElemSlice(t types.Type) bool {
 	return ok && kit.IsNamedType(sl.Elem(), dataPkg, "NodeEdge") && !cmIsPointer(sl.Elem())
 }
 
-// c07ListingChain follows the ranged variable of loop back to the listing call.
-func c07ListingChain(f *kit.Func, loop *ast.RangeStmt) *c07Chain {
+func c07ParamOf(f *kit.Func, o types.Object) *types.Var {
+	for _, p := range f.Params() {
+		if types.Object(p) == o {
+			return p
+		}
+	}
+	return nil
+}
+
+// c07FollowListing follows the listing expression e, as evaluated at position
+// `before` of f, back to a listing call, an explicit element list or a
+// parameter of f.
+func c07FollowListing(f *kit.Func, e ast.Expr, before token.Pos) *c07Chain {
 	info := f.Info()
-	ch := &c07Chain{}
-	if _, isID := ast.Unparen(loop.X).(*ast.Ident); !isID {
-		ch.undec = "the start loop does not range over a variable"
+	ch := &c07Chain{in: f}
+	e = ast.Unparen(e)
+	if lit, ok := e.(*ast.CompositeLit); ok && c07IsElemSlice(info.TypeOf(lit)) {
+		ch.literal = lit
 		return ch
 	}
-	start := kit.ObjOf(info, loop.X)
+	if _, isID := e.(*ast.Ident); !isID {
+		ch.undec = "`" + f.Str(e) + "` is not a listing variable"
+		return ch
+	}
+	start := kit.ObjOf(info, e)
 	if !cmIsLocal(start) {
-		ch.undec = "the start loop does not range over a local variable"
+		ch.undec = "`" + f.Str(e) + "` is not a local variable"
 		return ch
 	}
 	seen := map[types.Object]bool{}
@@ -67,7 +86,7 @@ func c07ListingChain(f *kit.Func, loop *ast.RangeStmt) *c07Chain {
 		nAssign := 0
 		cmOwn(f.Body, func(n ast.Node) bool {
 			as, ok := n.(*ast.AssignStmt)
-			if !ok || as.Pos() >= loop.Pos() || ch.undec != "" {
+			if !ok || as.Pos() >= before || ch.undec != "" {
 				return true
 			}
 			idx := -1
@@ -83,8 +102,8 @@ func c07ListingChain(f *kit.Func, loop *ast.RangeStmt) *c07Chain {
 			// listing call: v, err := call(…)
 			if len(as.Rhs) == 1 && len(as.Lhs) == 2 && idx == 0 {
 				if call, ok := ast.Unparen(as.Rhs[0]).(*ast.CallExpr); ok && isErrorType(info.TypeOf(as.Lhs[1])) {
-					if ch.listCall != nil && ch.listCall != call {
-						ch.undec = "`" + v.Name() + "` is produced by more than one listing call"
+					if (ch.listCall != nil && ch.listCall != call) || ch.literal != nil {
+						ch.undec = "`" + v.Name() + "` is produced in more than one way"
 						return true
 					}
 					ch.listCall = call
@@ -96,6 +115,14 @@ func c07ListingChain(f *kit.Func, loop *ast.RangeStmt) *c07Chain {
 				return true
 			}
 			rhs := ast.Unparen(as.Rhs[idx])
+			if lit, ok := rhs.(*ast.CompositeLit); ok && c07IsElemSlice(info.TypeOf(lit)) {
+				if ch.listCall != nil || (ch.literal != nil && ch.literal != lit) {
+					ch.undec = "`" + v.Name() + "` is produced in more than one way"
+					return true
+				}
+				ch.literal = lit
+				return true
+			}
 			// plain copy
 			if _, isID := rhs.(*ast.Ident); isID {
 				if w := kit.ObjOf(info, rhs); cmIsLocal(w) && c07IsElemSlice(w.Type()) {
@@ -133,15 +160,110 @@ func c07ListingChain(f *kit.Func, loop *ast.RangeStmt) *c07Chain {
 			follow(w)
 			return true
 		})
-		if nAssign == 0 && ch.undec == "" && ch.listCall == nil {
-			ch.undec = "`" + v.Name() + "` is not assigned from a listing call before the loop"
+		if p := c07ParamOf(f, v); p != nil {
+			if ch.listCall != nil || ch.literal != nil {
+				ch.undec = "parameter `" + v.Name() + "` is also assigned a listing"
+				return
+			}
+			if ch.param != nil && ch.param != p {
+				ch.undec = "the listing comes from more than one parameter"
+				return
+			}
+			ch.param = p
+			return
+		}
+		if nAssign == 0 && ch.undec == "" && ch.listCall == nil && ch.literal == nil {
+			ch.undec = "`" + v.Name() + "` is not assigned from a listing call before its use"
 		}
 	}
 	follow(start)
-	if ch.undec == "" && ch.listCall == nil {
-		ch.undec = "cannot find the call that produces `" + f.Str(loop.X) + "`"
+	if ch.undec == "" && ch.listCall == nil && ch.literal == nil && ch.param == nil {
+		ch.undec = "cannot find the call that produces `" + f.Str(e) + "`"
 	}
 	return ch
+}
+
+// c07Act is one activation of the start function: the listing is produced in
+// the function itself (caller == nil), or handed in by a caller together with
+// constant arguments for other parameters.
+type c07Act struct {
+	caller *kit.Func
+	call   *ast.CallExpr
+	consts map[types.Object]string // boolean parameter -> "true" / "false"
+	chain  *c07Chain               // ends in a listing call or an element list
+	inner  *c07Chain               // the part inside the start function (filters applied there)
+	label  string
+}
+
+func c07ConstsStr(a *c07Act) string {
+	var ps []string
+	for po, v := range a.consts {
+		ps = append(ps, po.Name()+"="+v)
+	}
+	sort.Strings(ps)
+	if len(ps) == 0 {
+		return "no constant arguments"
+	}
+	return strings.Join(ps, ", ")
+}
+
+// c07Activations resolves where the listing ranged over by loop comes from.
+func c07Activations(c *kit.Ctx, f *kit.Func, loop *ast.RangeStmt) ([]*c07Act, string) {
+	inner := c07FollowListing(f, loop.X, loop.Pos())
+	if inner.undec != "" {
+		return nil, inner.undec
+	}
+	if inner.param == nil {
+		return []*c07Act{{chain: inner, inner: inner, label: f.Name}}, ""
+	}
+	idx := -1
+	for i, p := range f.Params() {
+		if p == inner.param {
+			idx = i
+		}
+	}
+	var acts []*c07Act
+	for _, cf := range c.P.Funcs(f.PkgRel()) {
+		if cf.Body == nil {
+			continue
+		}
+		for _, call := range cf.AllCalls(false) {
+			if cf.CalleeFunc(call) != f || idx < 0 || idx >= len(call.Args) {
+				continue
+			}
+			ch := c07FollowListing(cf, call.Args[idx], call.Pos())
+			if ch.undec != "" {
+				return nil, "in " + cf.Name + ": " + ch.undec
+			}
+			if ch.param != nil {
+				return nil, "the listing is handed through more than one level of parameters (" + cf.Name + ")"
+			}
+			a := &c07Act{caller: cf, call: call, consts: map[types.Object]string{}, chain: ch, inner: inner, label: "from " + cf.Name}
+			for i, p := range f.Params() {
+				if i == idx || i >= len(call.Args) {
+					continue
+				}
+				if tv, ok := cf.Info().Types[call.Args[i]]; ok && tv.Value != nil {
+					if b, ok := p.Type().Underlying().(*types.Basic); ok && b.Info()&types.IsBoolean != 0 {
+						a.consts[p] = tv.Value.String()
+					}
+				}
+			}
+			acts = append(acts, a)
+		}
+	}
+	if len(acts) == 0 {
+		return nil, "the listing is parameter `" + inner.param.Name() + "` of " + f.Name + ", which has no caller in the package"
+	}
+	// stable labels when one caller calls twice
+	cnt := map[string]int{}
+	for _, a := range acts {
+		cnt[a.label]++
+		if cnt[a.label] > 1 {
+			a.label += "#" + string(rune('0'+cnt[a.label]%10))
+		}
+	}
+	return acts, ""
 }
 
 // c07FieldsOf collects the fields of base that e is built from.  ok=false
@@ -488,51 +610,242 @@ func c07R7(c *kit.Ctx, m *cmModel, r *kit.Rule) {
 			continue
 		}
 		seenF[f] = true
-		o := r.Ob(f, sto.loop, "listing reaches the start loop", "every function applied to the listing before the start/found loop keeps one entry per placement (fields of the manager's key)")
 		need, why := c07ManagerKeyFields(f, sto)
-		if need == nil {
-			o.Undecided("%s", why)
+		acts, undec := c07Activations(c, f, sto.loop)
+		if need == nil || undec != "" {
+			r.Ob(f, sto.loop, "listing reaches the start loop", "every function applied to the listing before the start/found loop keeps one entry per placement (fields of the manager's key)").
+				Undecided("%s", c07Nz(why, undec))
 			continue
 		}
-		ch := c07ListingChain(f, sto.loop)
-		if ch.undec != "" {
-			o.Undecided("%s", ch.undec)
-			continue
-		}
-		if len(ch.filters) == 0 {
-			o.OK("`%s` comes straight from `%s`; manager key fields: %s", f.Str(sto.loop.X), f.Str(ch.listCall.Fun), c07FieldNames(need))
-		} else {
-			o.OK("listing call `%s`, %d intermediate function(s) checked separately; manager key fields: %s", f.Str(ch.listCall.Fun), len(ch.filters), c07FieldNames(need))
-		}
-		for i, call := range ch.filters {
-			c07FilterOb(c, r, ch.filterIn[i], call, need)
-		}
-		// the listing helper itself: single-argument functions applied to element slices inside it
-		oh := r.Ob(f, ch.listCall, "listing helper", "functions the helper applies to the collected listing keep one entry per placement")
-		hf := f.CalleeFunc(ch.listCall)
-		if hf == nil || hf.Body == nil {
-			oh.OK("the listing call is not a function of the analysed module (bus request)")
-			continue
-		}
-		c.Analysed(hf)
-		n := 0
-		hinfo := hf.Info()
-		cmOwn(hf.Body, func(x ast.Node) bool {
-			call, ok := x.(*ast.CallExpr)
-			if !ok || len(call.Args) != 1 || !c07IsElemSlice(hinfo.TypeOf(call.Args[0])) || !c07IsElemSlice(hinfo.TypeOf(call)) {
-				return true
+		doneFilter := map[*ast.CallExpr]bool{}
+		doneHelper := map[*kit.Func]bool{}
+		for _, act := range acts {
+			construct := "listing reaches the start loop"
+			site := ast.Node(sto.loop)
+			if act.caller != nil {
+				construct += " " + act.label
 			}
-			if cmIsBuiltin(hinfo, call, "append") || cmIsBuiltin(hinfo, call, "len") {
-				return true
+			o := r.Ob(f, site, construct, "every function applied to the listing before the start/found loop keeps one entry per placement (fields of the manager's key)")
+			var filters []*ast.CallExpr
+			var filterIn []*kit.Func
+			filters = append(filters, act.chain.filters...)
+			filterIn = append(filterIn, act.chain.filterIn...)
+			if act.inner != act.chain {
+				filters = append(filters, act.inner.filters...)
+				filterIn = append(filterIn, act.inner.filterIn...)
 			}
-			if tv, isConv := hinfo.Types[call.Fun]; isConv && tv.IsType() {
-				return true
+			src := "an explicit element list"
+			if act.chain.listCall != nil {
+				src = "`" + act.chain.in.Str(act.chain.listCall.Fun) + "`"
 			}
-			n++
-			c07FilterOb(c, r, hf, call, need)
+			o.OK("listing from %s, %d intermediate function(s) checked separately; manager key fields: %s", src, len(filters), c07FieldNames(need))
+			for i, call := range filters {
+				if !doneFilter[call] {
+					doneFilter[call] = true
+					c07FilterOb(c, r, filterIn[i], call, need)
+				}
+			}
+			// the listing helper itself: single-argument functions applied to element slices inside it
+			if act.chain.listCall == nil {
+				continue
+			}
+			hf := act.chain.in.CalleeFunc(act.chain.listCall)
+			if hf != nil && doneHelper[hf] {
+				continue
+			}
+			oh := r.Ob(act.chain.in, act.chain.listCall, "listing helper", "functions the helper applies to the collected listing keep one entry per placement")
+			if hf == nil || hf.Body == nil {
+				oh.OK("the listing call is not a function of the analysed module (bus request)")
+				continue
+			}
+			doneHelper[hf] = true
+			c.Analysed(hf)
+			n := 0
+			hinfo := hf.Info()
+			cmOwn(hf.Body, func(x ast.Node) bool {
+				call, ok := x.(*ast.CallExpr)
+				if !ok || len(call.Args) != 1 || !c07IsElemSlice(hinfo.TypeOf(call.Args[0])) || !c07IsElemSlice(hinfo.TypeOf(call)) {
+					return true
+				}
+				if cmIsBuiltin(hinfo, call, "append") || cmIsBuiltin(hinfo, call, "len") {
+					return true
+				}
+				if tv, isConv := hinfo.Types[call.Fun]; isConv && tv.IsType() {
+					return true
+				}
+				n++
+				c07FilterOb(c, r, hf, call, need)
+				return true
+			})
+			oh.OK("%s: %d function(s) applied to the listing", hf.Name, n)
+		}
+	}
+}
+
+// ---------------------------------------------------------------------------
+// R8 — the node a client state is constructed from was fetched in the same activation.
+
+// c07Fresh traces the node expression e of function f (evaluated at `before`)
+// to its origin: "ok" (element of a listing fetched by a call of this
+// activation), "violation" (a value that survives across activations: the
+// node kept in a client state, a field of the manager, a package variable),
+// or "undecided".
+func c07Fresh(m *cmModel, f *kit.Func, e ast.Expr, before token.Pos, depth int) (string, string) {
+	info := f.Info()
+	e = ast.Unparen(e)
+	if depth > 6 {
+		return "undecided", "provenance of `" + f.Str(e) + "` is too deep to trace"
+	}
+	fromSlice := func(x ast.Expr) (string, string) {
+		ch := c07FollowListing(f, x, before)
+		switch {
+		case ch.undec != "":
+			return "undecided", ch.undec
+		case ch.listCall != nil:
+			return "ok", "element of the result of `" + f.Str(ch.listCall.Fun) + "` fetched in " + f.Name
+		case ch.literal != nil:
+			for _, el := range ch.literal.Elts {
+				if v, why := c07Fresh(m, f, el, ch.literal.Pos(), depth+1); v != "ok" {
+					return v, why
+				}
+			}
+			return "ok", "explicit list of freshly fetched nodes"
+		}
+		return "undecided", "`" + f.Str(x) + "` is a parameter of " + f.Name
+	}
+	switch x := e.(type) {
+	case *ast.IndexExpr:
+		if c07IsElemSlice(info.TypeOf(x.X)) {
+			return fromSlice(x.X)
+		}
+	case *ast.SelectorExpr:
+		if fv := cmField(info, x); fv != nil {
+			rootT := cmNamedOrigin(info.TypeOf(x.X))
+			switch {
+			case fv == m.csNode:
+				return "violation", "`" + f.Str(x) + "` is the node kept in an existing client state: it holds the points and edge points of the moment that client was constructed"
+			case rootT != nil && (rootT == m.mgr || rootT == m.cs):
+				return "violation", "`" + f.Str(x) + "` is a field of " + rootT.Obj().Name() + " and survives across activations"
+			}
+			return "undecided", "cannot tell where `" + f.Str(x) + "` was fetched"
+		}
+	case *ast.Ident:
+		o := kit.ObjOf(info, x)
+		if v, ok := o.(*types.Var); ok && !cmIsLocal(o) && !v.IsField() {
+			return "violation", "`" + x.Name + "` is a package variable and survives across activations"
+		}
+		if !cmIsLocal(o) {
+			break
+		}
+		// range element of a listing
+		var rng *ast.RangeStmt
+		cmOwn(f.Body, func(n ast.Node) bool {
+			if rs, ok := n.(*ast.RangeStmt); ok && rs.Value != nil && kit.ObjOf(info, rs.Value) == o {
+				rng = rs
+			}
 			return true
 		})
-		oh.OK("%s: %d function(s) applied to the listing", hf.Name, n)
+		if rng != nil && cmAssignCount(f, o) == 1 {
+			return fromSlice(rng.X)
+		}
+		if p := c07ParamOf(f, o); p != nil {
+			return "undecided", "`" + x.Name + "` is a parameter of " + f.Name
+		}
+		if def := cmSingleDef(f, o); def != nil {
+			return c07Fresh(m, f, def, def.Pos(), depth+1)
+		}
+	}
+	return "undecided", "cannot trace `" + f.Str(e) + "` to a fetch of this activation"
+}
+
+func c07R8(c *kit.Ctx, m *cmModel, r *kit.Rule) {
+	for _, f := range c.P.Funcs("client") {
+		if f.Body == nil {
+			continue
+		}
+		info := f.Info()
+		for _, call := range f.AllCalls(false) {
+			cf := f.CalleeFunc(call)
+			isCtor := false
+			for _, x := range m.ctors {
+				if x == cf && cf != nil {
+					isCtor = true
+				}
+			}
+			if !isCtor {
+				continue
+			}
+			var arg ast.Expr
+			for _, a := range call.Args {
+				if t := info.TypeOf(a); t != nil && kit.IsNamedType(t, dataPkg, "NodeEdge") && !cmIsPointer(t) {
+					arg = a
+				}
+			}
+			if arg == nil {
+				r.Ob(f, call, "node handed to "+cf.Name, "fetched in the same activation").Undecided("the constructor call has no data.NodeEdge argument")
+				continue
+			}
+			// is the argument the element of a loop over a listing that the callers hand in?
+			var loop *ast.RangeStmt
+			if _, isID := ast.Unparen(arg).(*ast.Ident); isID {
+				ao := kit.ObjOf(info, arg)
+				cmOwn(f.Body, func(n ast.Node) bool {
+					if rs, ok := n.(*ast.RangeStmt); ok && rs.Value != nil && kit.ObjOf(info, rs.Value) == ao && cmWithin(call, rs.Body) {
+						loop = rs
+					}
+					return true
+				})
+			}
+			if loop != nil {
+				acts, undec := c07Activations(c, f, loop)
+				if undec != "" {
+					r.Ob(f, call, "node handed to "+cf.Name, "fetched in the same activation").Undecided("%s", undec)
+					continue
+				}
+				for _, act := range acts {
+					construct := "node handed to " + cf.Name
+					if act.caller != nil {
+						construct += " " + act.label
+					}
+					o := r.Ob(f, call, construct, "an element of a listing fetched by a call of the same scan/restart activation, never a value kept from an earlier one")
+					v, why := "ok", ""
+					switch {
+					case act.chain.listCall != nil:
+						why = "element of the result of `" + act.chain.in.Str(act.chain.listCall.Fun) + "` fetched in " + act.chain.in.Name
+					case act.chain.literal != nil:
+						why = "explicit list of freshly fetched nodes in " + act.chain.in.Name
+						for _, el := range act.chain.literal.Elts {
+							if v2, w2 := c07Fresh(m, act.chain.in, el, act.chain.literal.Pos(), 0); v2 != "ok" {
+								v, why = v2, w2
+								break
+							}
+						}
+					default:
+						v, why = "undecided", "listing provenance not resolved"
+					}
+					c07FreshOb(o, v, why, act)
+				}
+				continue
+			}
+			o := r.Ob(f, call, "node handed to "+cf.Name, "an element of a listing fetched by a call of the same scan/restart activation, never a value kept from an earlier one")
+			v, why := c07Fresh(m, f, arg, call.Pos(), 0)
+			c07FreshOb(o, v, why, nil)
+		}
+	}
+}
+
+func c07FreshOb(o *kit.Ob, v, why string, act *c07Act) {
+	switch v {
+	case "ok":
+		o.OK("%s", why)
+	case "violation":
+		where := ""
+		if act != nil && act.caller != nil {
+			where = " (handed in by " + act.caller.Name + ")"
+		}
+		o.Violation("the client is constructed from a stale node%s: %s; every point change made while the previous client ran is rolled back in the restarted client's configuration", where, why)
+	default:
+		o.Undecided("%s", why)
 	}
 }
 
